@@ -111,6 +111,19 @@ func (f *Frame) call(in ssa.Instruction, cc *ssa.CallCommon, st *State) []Term {
 	switch name {
 	case "__forall", "__exists":
 		return f.quantifier(name == "__forall", cc, st)
+	case "__same":
+		var cs []Term
+		lay := layout(cc.Args[0].Type())
+		for i := range args[0] {
+			if lay[i].Sort == SStr {
+				cs = append(cs, c.strEq(args[0][i], args[1][i]))
+			} else {
+				cs = append(cs, Eq(args[0][i], args[1][i]))
+			}
+		}
+		return []Term{And(cs...)}
+	case "__base":
+		return []Term{args[0][0]}
 	case "__oldEnter":
 		f.oldHeaps = append(f.oldHeaps, HeapSnap{st.Heap, st.Gen})
 		old := f.specOld()
@@ -543,17 +556,17 @@ func (f *Frame) havocKeys(ms *modSet, st *State) {
 		ks = append(ks, k)
 	}
 	sort.Strings(ks)
+	if len(ks) > 0 || ms.all {
+		na := c.fresh("alloc", SInt)
+		c.assert(Ge(na, st.Alloc))
+		st.Alloc = na
+	}
 	for _, k := range ks {
 		srt, ok := c.eng.keySorts[k]
 		if !ok {
 			continue
 		}
-		st.Heap[k] = c.fresh("hv", srt)
-	}
-	if len(ks) > 0 || ms.all {
-		na := c.fresh("alloc", SInt)
-		c.assert(Ge(na, st.Alloc))
-		st.Alloc = na
+		c.setHeap(st, k, c.fresh("hv", srt))
 	}
 }
 
@@ -846,14 +859,16 @@ func (f *Frame) builtinAppend(in ssa.Instruction, cc *ssa.CallCommon, args [][]T
 		naFit := c.fresh("appfit", asort)
 		c.n++
 		i := Term{fmt.Sprintf("i!%d", c.n), SInt}
-		inWin := And(Ge(i, Add(s[1], s[2])), Lt(i, Add(s[1], newLen)))
-		c.assert(Forall([]Term{i}, Eq(Select(naFit, i), Ite(inWin, tail(Sub(i, s[1])), Select(srcOld, i))), []Term{Select(naFit, i)}))
+		inWin := And(fits, Ge(i, Add(s[1], s[2])), Lt(i, Add(s[1], newLen)))
+		c.assertDef(naFit, Forall([]Term{i}, Eq(Select(naFit, i), Ite(inWin, tail(Sub(i, s[1])), Select(srcOld, i))), []Term{Select(naFit, i)}))
 		// reallocation: old elements then the appended ones, from index 0
 		naNew := c.fresh("appnew", asort)
 		c.n++
 		j := Term{fmt.Sprintf("j!%d", c.n), SInt}
-		c.assert(Forall([]Term{j}, Implies(And(Ge(j, IntLit(0)), Lt(j, newLen)), Eq(Select(naNew, j), Ite(Lt(j, s[2]), Select(srcOld, Add(s[1], j)), tail(j)))), []Term{Select(naNew, j)}))
-		st.Heap[key] = c.define("heap", Ite(fits, Store(h, s[0], naFit), Store(h, fresh, naNew)))
+		c.assertDef(naNew, Forall([]Term{j}, Implies(And(Ge(j, IntLit(0)), Lt(j, newLen)), Eq(Select(naNew, j), Ite(Lt(j, s[2]), Select(srcOld, Add(s[1], j)), tail(j)))), []Term{Select(naNew, j)}))
+		// no array-level ite: when the append reallocates, naFit equals the old
+		// contents pointwise and the fresh array is written as well
+		c.setHeap(st, key, c.define("heap", Store(Store(h, s[0], naFit), fresh, naNew)))
 	}
 	return []Term{resBase, resOff, newLen, resCap}
 }
@@ -891,8 +906,8 @@ func (f *Frame) builtinCopy(in ssa.Instruction, cc *ssa.CallCommon, args [][]Ter
 			src = Select(Select(h, sBase), Add(sOff, Sub(j, d[1])))
 		}
 		inWin := And(Ge(j, d[1]), Lt(j, Add(d[1], n)))
-		c.assert(Forall([]Term{j}, Eq(Select(na, j), Ite(inWin, src, Select(old, j))), []Term{Select(na, j)}))
-		st.Heap[key] = c.define("heap", Store(h, d[0], na))
+		c.assertDef(na, Forall([]Term{j}, Eq(Select(na, j), Ite(inWin, src, Select(old, j))), []Term{Select(na, j)}))
+		c.setHeap(st, key, c.define("heap", Store(h, d[0], na)))
 	}
 	return []Term{n}
 }
